@@ -14,6 +14,10 @@ package telemetrykeys
 //@ method (*withTelemetry).Unwrap
 //@   props C07 C10 C14
 //@   ensures result == self.cause
+//@ method (*withTelemetry).SafeFormatError
+//@   props C09
+//@   requires p != nil
+//@   ensures result == self.cause
 
 //@ method (*withTelemetry).SafeDetails
 //@   props C03 C11 C12
